@@ -88,6 +88,42 @@ fn sweep_table(ctx: &Ctx, env: &Env, acc: &mut Acc) {
     eprintln!("  [C08] table sweep: {} (month, currency) cells", part.states);
     let merged = Acc::merge(std::mem::take(acc), part);
     *acc = merged;
+    // every day of 2019-2025 (first and last days of months, 29 February, year ends) in USD and EUR: the rate of the
+    // transaction's own month, never a neighbour's
+    let mut days = vec![];
+    let mut d = alpha::date(2019, 1, 1);
+    while d <= alpha::date(2025, 12, 31) {
+        days.push(d);
+        d += chrono::Duration::days(1);
+    }
+    let part = days
+        .par_iter()
+        .fold(Acc::new, |mut acc, d| {
+            use chrono::Datelike;
+            for cur in [Currency::USD, Currency::EUR] {
+                let Some(r) = env.rates.get(&(cur.code().to_string(), d.year(), d.month())) else { continue };
+                let txs = vec![Transaction { date: *d, ticker: "X".into(), operation: Operation::Buy { amount: dec("10"), price: CurrencyAmount::new(dec("100"), cur), fees: CurrencyAmount::new(dec("7"), cur) } }];
+                acc.states += 1;
+                acc.validated += 1;
+                acc.bump("table:day-sweep");
+                let cx = json!({"profile": "day-sweep", "currency": cur.code(), "date": d.to_string()});
+                match run_calc(&txs, None, Some(&env.fx), &env.cfg) {
+                    Outcome::Report(rep) => {
+                        let want = Rat::int(1007) / Rat::from_dec(*r);
+                        let got = rep.holdings.iter().find(|h| h.ticker == "X").map(|h| Rat::from_dec(h.total_cost)).unwrap_or_default();
+                        if !got.close(&want) {
+                            acc.violation(&ctx.findings, "C08", v("wrong-rate", &txs, format!("cost {} but (10 x 100 + 7) / {} = {}", got, r, want), cx));
+                        }
+                    }
+                    Outcome::Err { msg, .. } => acc.violation(&ctx.findings, "C08", v("available-rate-refused", &txs, msg, cx)),
+                    Outcome::Panic(p) => acc.violation(&ctx.findings, "C08", v("panic", &txs, p, cx)),
+                }
+            }
+            acc
+        })
+        .reduce(Acc::new, Acc::merge);
+    let merged = Acc::merge(std::mem::take(acc), part);
+    *acc = merged;
 }
 
 /// (b) ledgers mixing currencies and months vs their pre-converted GBP twins.
@@ -257,6 +293,8 @@ fn menu() -> Vec<MenuFile> {
         MenuFile { name: "2024-07.xml", content: xml("01/Jul/2024 to 31/Jul/2024", &[("USD", "-1.3")]), good: false, defines: vec![] },
         MenuFile { name: "2024-08.xml", content: "<exchangeRateMonthList Period=\"01/Aug/2024 to 31/Aug/2024\"><exchangeRate><currencyCode>USD".to_string(), good: false, defines: vec![] },
         MenuFile { name: "rates-2024-09.xml", content: xml("01/Sep/2024 to 30/Sep/2024", &[("USD", "1.1")]), good: false, defines: vec![] },
+        // a second file for a month that another file also covers (the other documented file name), other currency
+        MenuFile { name: "monthly_xml_2024-03.xml", content: xml("01/Mar/2024 to 31/Mar/2024", &[("JPY", "200.5")]), good: true, defines: vec![(("JPY", 2024, 3), "200.5")] },
     ]
 }
 
@@ -511,6 +549,61 @@ fn cli_fx(ctx: &Ctx, env: &Env, acc: &mut Acc) {
     let _ = m.finish();
 }
 
+/// The MCP front-end of the rate table: get_fx_rate for every month 2014-12 .. 2026-06 in USD, EUR and JPY (and a
+/// lower-case spelling), pipelined into one real `cgt-tool mcp` session, against the independent reader of the XML.
+fn mcp_rates(ctx: &Ctx, env: &Env, acc: &mut Acc) {
+    use mcx::proc::{Mcp, tool_call, tool_text};
+    let sc = Scratch::new();
+    let mut m = Mcp::start(&sc);
+    let mut cells = vec![];
+    let (mut y, mut mo) = (2014, 12u32);
+    while (y, mo) <= (2026, 6) {
+        for code in ["USD", "EUR", "JPY", "usd"] {
+            cells.push((code, y, mo));
+        }
+        let n = next_month(y, mo);
+        y = n.0;
+        mo = n.1;
+    }
+    let mut ids = vec![];
+    for (i, (code, y, mo)) in cells.iter().enumerate() {
+        let id = json!(i + 1);
+        m.send_raw(&tool_call(&id, "get_fx_rate", json!({"currency": code, "year": y, "month": mo})));
+        ids.push(id.to_string());
+    }
+    let ok = m.wait_for(&ids, Duration::from_secs(60));
+    acc.states += cells.len() as u64;
+    acc.validated += cells.len() as u64;
+    acc.add("mcp:get_fx_rate", cells.len() as u64);
+    if !ok {
+        acc.violation(&ctx.findings, "C08", Violation { clause: "mcp-rate".into(), input: Input::Json(json!({"tool": "get_fx_rate"})), detail: "not every get_fx_rate request was answered within 60 s".into(), context: json!({"profile": "mcp-rates"}) });
+    }
+    for (id, (code, y, mo)) in ids.iter().zip(cells.iter()) {
+        let Some(resp) = m.got.get(id).and_then(|v| v.first()) else { continue };
+        let want = env.rates.get(&(code.to_uppercase(), *y, *mo));
+        let input = || Input::Json(json!({"tool": "get_fx_rate", "currency": code, "year": y, "month": mo}));
+        let cx = json!({"profile": "mcp-rates"});
+        match (tool_text(resp), want) {
+            (Ok(t), Some(r)) => {
+                let v: Value = serde_json::from_str(&t).unwrap_or(Value::Null);
+                let shown = v["rate"].as_str().and_then(|s| s.parse::<Decimal>().ok());
+                if shown != Some(*r) || v["currency"].as_str() != Some(code.to_uppercase().as_str()) || v["period"].as_str() != Some(format!("{y}-{mo:02}").as_str()) {
+                    acc.violation(&ctx.findings, "C08", Violation { clause: "mcp-rate".into(), input: input(), detail: format!("get_fx_rate answers {t} but the bundled HMRC rate is {r}"), context: cx });
+                }
+            }
+            (Ok(t), None) => acc.violation(&ctx.findings, "C08", Violation { clause: "mcp-rate".into(), input: input(), detail: format!("no HMRC rate is bundled for that month, yet get_fx_rate answers {t}"), context: cx }),
+            (Err(e), Some(r)) => acc.violation(&ctx.findings, "C08", Violation { clause: "mcp-rate".into(), input: input(), detail: format!("the bundled rate is {r} but get_fx_rate fails: {e}"), context: cx }),
+            (Err(e), None) => {
+                acc.bump("mcp:missing-rate-refused");
+                if !e.contains(&code.to_uppercase()) || !e.contains(&format!("{y}-{mo:02}")) {
+                    acc.violation(&ctx.findings, "C08", Violation { clause: "mcp-rate".into(), input: input(), detail: format!("the error must name the currency and the month: {e}"), context: cx });
+                }
+            }
+        }
+    }
+    let _ = m.finish();
+}
+
 pub fn c08(tier: Tier) -> i32 {
     let mut ctx = Ctx::new("C08", tier, preds::all());
     let env = Env::new();
@@ -539,6 +632,7 @@ pub fn c08(tier: Tier) -> i32 {
     folder_configs(&ctx, &env, &mut acc);
     row_sequences(&ctx, &mut acc);
     cli_fx(&ctx, &env, &mut acc);
+    mcp_rates(&ctx, &env, &mut acc);
     for k in ["table:converted", "table:missing-refused", "twin-both-accepted", "shape:needed-rate-missing", "shape:two-months-in-one-ledger", "folder:overlay-compared", "folder:bad-file-refused", "cli:--fx-folder"] {
         ctx.require(acc.get(k) > 0, &format!("nothing exhibited {k}"));
     }
